@@ -246,7 +246,8 @@ def storeTfParam (p : Param α) : Param α :=
 def doReset (m : Mdl α) : Mdl α :=
   doSetup { m with params := m.params.map restoreParam, addressed := false, isSetup := true }
 
-/-- does the call raise before changing anything? -/
+/-- does the call raise before changing anything?  (`TDS.init` without set-up has no power-flow solution to
+start from: `len(None)`; `TDS.init` after set-up but without a power flow is outside the modelled domain) -/
 def status (m : Mdl α) : Op α → Status
   | .setup => if m.isSetup then .refused else .ok
   | .alter _ _ _ attr _ => if !m.isSetup && attr == .vin then .typeError else .ok
@@ -254,7 +255,7 @@ def status (m : Mdl α) : Op α → Status
   | .gset _ _ attr _ => if !m.isSetup && attr == .vin then .typeError else .ok
   | .reset force => if m.tdsInit && !force then .refused else if !m.isSetup then .typeError else .ok
   | .pflow => .ok
-  | .tdsInit => if m.tdsInit then .refused else .ok
+  | .tdsInit => if m.tdsInit then .refused else if !m.isSetup then .typeError else .ok
   | .dumpXlsx => .ok
   | .dumpJson => .ok
 
